@@ -65,6 +65,12 @@ pub fn run(tier: Tier, replay: Option<String>) -> i32 {
                 }
             }
         }
+        // bodies above 64 KiB (bits 16..22 of the 3-byte Wrath size): counted integer arrays
+        for (name, f) in corpus.counted_array_frames(ep.ns(), dir, &[0x1_0002, 0x2_0000]) {
+            if let Outcome::Ok { debug, .. } = ep.read_only(&f) {
+                pool.frames.push((name, f, debug));
+            }
+        }
         if pool.frames.is_empty() {
             continue;
         }
